@@ -353,6 +353,14 @@ def run_sink_case(case):
         kw = {k: (v[0] * 1024 if k.endswith("_sz") else v[0]) for k, v in zip(names, case["kw"]) if v}
         outcome, out = "ok", []
         try:
+            rd = lambda x: [int(x.min_write_sz), int(x.max_write_sz), int(x.min_part), int(x.max_part)]  # noqa: E731
+            ref, ref0 = None, None
+            if case["cls"] == "file":
+                # history: what a sink reports is a function of ITS OWN configuration - a default sink made before, and one made after, another sink was
+                # given other limits report the same; nobody's report changes when a later sink is configured
+                ref = MPUFileSink("/nonexistent/ref.bin")
+                ref0 = rd(ref)
+                MPUFileSink("/nonexistent/other.bin", min_write_sz=3 << 20, max_write_sz=7 << 20, min_part=2, max_part=77)
             if case["cls"] == "file":
                 w = MPUFileSink("/nonexistent/x.bin", **kw)
             elif case["cls"] == "s3":
@@ -361,6 +369,8 @@ def run_sink_case(case):
                 w = DelayedS3Writer(MultiPartUpload("b", "k"), {})
             # sizes are reported in KiB (TLC integers are 32 bit; all values used are multiples of 1 KiB)
             out = [int(w.min_write_sz) // 1024, int(w.max_write_sz) // 1024, int(w.min_part), int(w.max_part)]
+            if ref is not None and (rd(ref) != ref0 or rd(MPUFileSink("/nonexistent/ref2.bin")) != ref0):
+                outcome = "limits_of_one_sink_changed_by_configuring_another"
         except Exception as ex:  # noqa: BLE001
             outcome = type(ex).__name__
         return {"c": case, "outcome": outcome, "out": out}
